@@ -14,6 +14,9 @@ func zzRoundSnapshot(number uint64, ntx int) *common.Snapshot {
 	for i := 0; i < ntx; i++ {
 		var h crypto.Hash
 		vr.Fill(h[:])
+		for _, o := range s.Transactions {
+			vr.Assume(o != h) // a snapshot's transactions are strictly increasing, hence distinct (C07)
+		}
 		s.Transactions = append(s.Transactions, h)
 	}
 	return s
@@ -30,6 +33,7 @@ func ZZ_C19() {
 	n := vr.Choose(0, maxN)
 	c := &CacheRound{Number: vr.U64(), index: newRoundIndexCache()}
 	vr.Fill(c.NodeId[:])
+	vr.Assume(c.Number > 0) // round 0 is the single-snapshot genesis / acceptance round (C07: exactly one transaction)
 	for i := 0; i < n; i++ {
 		c.Snapshots = append(c.Snapshots, zzRoundSnapshot(c.Number, vr.Choose(1, 2)))
 	}
